@@ -347,6 +347,14 @@ func (procHarness) Gen(seed uint64, prop, tier string) *simkit.Program {
 	if r.P(0.25) {
 		p.Cfg["loop"] = 1
 	}
+	if prop == "C02" && r.P(0.3) {
+		p.Cfg["confluence"] = int64(2 + r.Intn(3))
+		delete(p.Cfg, "loop")
+	}
+	if p.Cfg["confluence"] > 0 {
+		genPure(g)
+		return p
+	}
 	switch prop {
 	case "C14":
 		genC14(g)
@@ -573,5 +581,49 @@ func genC14(g *genState) {
 	if g.tier == "thorough" && r.P(0.03) {
 		// budget exhaustion horizon: 60 simulated days of regular ticks
 		g.add("tick", 30*sec, 2*60*24*60+100, 0, 0, "")
+	}
+}
+
+// genPure: one guardian set containing the node, a few messages each observed once, their
+// deliveries (valid, duplicated, byzantine) in a drawn order. Used for the C02 confluence check.
+func genPure(g *genState) {
+	r := g.r
+	g.pushSet(g.newSet(g.setSize(), true))
+	set := g.curSet()
+	q := ref.Quorum(len(set))
+	nm := 1 + r.Intn(3)
+	used := map[int]bool{}
+	var steps []simkit.Step
+	for i := 0; i < nm; i++ {
+		id := r.Intn(14)
+		for used[id] {
+			id = (id + 1) % 14
+		}
+		used[id] = true
+		m := encodeMsg(id, r.Pick(6, 2, 1, 1, 1, 2, 1, 2), r.Pick(6, 1, 2, 1), r.Pick(4, 3, 0, 2), r.Pick(4, 2, 1, 2), 0)
+		target := []int{q - 1, q, q, q + 1, len(set)}[r.Intn(5)]
+		steps = append(steps, simkit.Step{Op: "msg", A: m}, simkit.Step{Op: "loop"})
+		n := 0
+		for _, k := range r.Perm(len(set)) {
+			if set[k] == g.own || n >= target-1 {
+				continue
+			}
+			steps = append(steps, simkit.Step{Op: "obs", A: int64(set[k]), B: m})
+			n++
+			if r.P(0.2) {
+				steps = append(steps, simkit.Step{Op: "obs", A: int64(set[k]), B: m, C: g.byzVariant(), D: int64(r.Intn(64))})
+			}
+		}
+		if r.P(0.3) {
+			steps = append(steps, simkit.Step{Op: "obs", A: g.nonMember(set), B: m})
+		}
+	}
+	for i := len(steps) - 1; i > 0; i-- {
+		k := r.Intn(i + 1)
+		steps[i], steps[k] = steps[k], steps[i]
+	}
+	g.p.Steps = append(g.p.Steps, steps...)
+	for i := 0; i < nm+1; i++ {
+		g.add("loop", 0, 0, 0, 0, "")
 	}
 }
